@@ -4,7 +4,7 @@ ENTRY = dict(
     title="Stream reassembly is fragmentation-independent; skipped frames never desync it",
     design_ref="DESIGN.md section 6 / C04",
     prop_modules=["C04", "C04Chunks", "C04Sched", "TieFrame", "TieReader", "TieChunks"],
-    technique="Lean 4 theorems by induction over frame sequences (reader model) + correspondence under 5-6 chunkings incl. lazily fed chunks",
+    technique="Lean 4 theorems by induction over frame sequences (reader model) + correspondence under 5-6 chunkings incl. lazily fed chunks + code tie (TieReader.read_eq) + resumable reader machine: chunk independence and every interleaving of arrival and reader progress as theorems (C04Chunks, C04Sched), implementation observed at every suspension",
     level_text=(
         "Proof: `C04.one_frame` (any well-formed frame, any recipient/sender/kind/payload/last byte, followed by anything, is consumed exactly "
         "and classified by its own gates), `C04.stream` (induction: every finite back-to-back sequence is read as exactly those frames, once, "
